@@ -29,6 +29,9 @@ def build(scratch):
     parts.append("impl<'a> ConstantEvaluator<'a> {\n    type_output_placeholder!();\n    " + "\n\n    ".join(preds + [vif.replace("-> Self::Output", "-> Result<ExprKind>")]) + "\n}")
     ex.items[-1]["edits"].append("`Self::Output` spelled out as `Result<ExprKind>` (the associated type of the trait impl)")
     parts.append("impl SteelVal {\n    " + ex.fn("crates/steel-core/src/rvals.rs", "is_truthy") + "\n}")
+    OPT = "crates/steel-core/src/compiler/passes/opt.rs"
+    parts.append(ex.fn(OPT, "expr_is_truthy"))
+    parts.append(ex.fn(OPT, "is_truthy"))
     s, ob, end = ex.impl_range(AST, r"impl If \{")
     parts.append("impl If {\n    " + ex.fn(AST, "new", within=(ob, end)) + "\n}")
     text = "\n\n".join(parts).replace("    type_output_placeholder!();\n", "") + "\n"
@@ -57,6 +60,8 @@ OBS = {
         contract=REF + "For EVERY token kind and payload, every binding state and assignment status of the identifier: if is_constant(test) then the test has a value and is_truthy_constant(test) is that value's truthiness; an assigned (set!) identifier is never constant"),
     "if_test_quote_folding_contract": dict(kind="proof", functions=["ConstantEvaluator::is_constant", "ConstantEvaluator::is_truthy_constant"],
         contract=REF + "For a quoted datum (any atom token, or a list): if is_constant(test) then is_truthy_constant(test) is the datum's truthiness - only '#f is false; a quoted list or symbol is true"),
+    "prune_if_truthy_contract": dict(kind="proof", functions=["opt.rs expr_is_truthy", "opt.rs is_truthy (PruneConstantIfBranches)"],
+        contract=REF + "PruneConstantIfBranches replaces (if test then else) by `then` when expr_is_truthy(test): for EVERY atom token and every quoted datum, expr_is_truthy(test) implies the test has a value and that value is not #f"),
     "visit_if_folding_contract": dict(kind="bounded", bound="test/then/else are atoms; the test is a boolean, keyword, identifier (any binding), number, `define` or `...` token; OptLevel symbolic", functions=["ConstantEvaluator::visit_if"],
         contract="the folder either keeps the `if` with all three parts (in place, in order) or replaces it by exactly the branch the reference semantics selects; it never folds below OptLevel::Three"),
 }
